@@ -29,3 +29,68 @@ Print Assumptions C14_length_extension_never_wraps.
 Theorem C14_length_extension_tied : GenLz4.ext_saturates = 1%N.
 Proof. exact gen_ext_saturates. Qed.
 Print Assumptions C14_length_extension_tied.
+
+(* SOUNDNESS of the fast decoder: whenever lz4::decompress accepts a block -- through its word-wise overrunning copies, its saturating 32-bit
+   length sums and its end-of-block guards -- the bytes it produced are exactly the byte-wise reference decoding of that block under the LZ4
+   block format.  For every block shorter than 4 GiB, every announced size and every initial content of the output.  (The converse is the
+   recorded finding: the reference accepts blocks the decoder refuses.) *)
+From GR Require Import Proofs.Lz4Sound.
+Theorem C14_decoder_sound : forall src osz out0 n out, (N.of_nat (length src) < U32 - 1)%N ->
+  decompress src osz out0 = Ok n out -> lz4_ref src = Some (firstn n out).
+Proof. exact decompress_sound. Qed.
+Print Assumptions C14_decoder_sound.
+
+(* COMPLETENESS within the block format's margins: every reference encoding of some data that leaves at least MINCODA input bytes after each
+   match header and ends with at least LASTLITERALS literals (the LZ4 block format's own end-of-block rules: [margins]), is at least
+   MINSRCSIZE bytes long and shorter than the data, is ACCEPTED by the fast decoder and decoded to exactly that data -- whatever the output
+   block held before.  With C14_decoder_sound: on such blocks lz4::decompress is the reference decoder.  (Blocks outside these margins are
+   the recorded finding.) *)
+From GR Require Import Proofs.Lz4Complete.
+Theorem C14_decoder_complete : forall src data out0, lz4_ref src = Some data -> margins (S (length src)) src = true ->
+  Lz4Model.MINSRCSIZE <= length src -> length src < length data -> (N.of_nat (length data) < U32 - 8)%N -> length out0 = length data ->
+  decompress src (length data) out0 = Ok (length data) data.
+Proof. exact decompress_complete. Qed.
+Print Assumptions C14_decoder_complete.
+
+(* The table-level caller (Face::Table::Table and Face::Table::decompress, Model/DecompModel.v): whatever bytes a table holds and whatever
+   size it announces, with a block of exactly the announced size every read and write of the loader and of the decoder stays inside its
+   buffer ... *)
+From GR Require Import Model.DecompModel Proofs.DecompProofs.
+Theorem C14_table_writes_inside_announced_size : forall t vmin heap, length heap = announced t -> table_open t vmin heap <> TTrap.
+Proof. exact table_open_safe. Qed.
+Print Assumptions C14_table_writes_inside_announced_size.
+(* ... a table announcing fewer than the four bytes the loader clears is refused BEFORE the block is touched (true of every block, the empty
+   one included) ... *)
+Theorem C14_table_small_size_refused : forall t heap, 20 <= length t -> scheme t = 1%N -> announced t < 4 ->
+  table_decompress t heap = TReject E_OUTOFMEM.
+Proof. exact table_small_size_refused. Qed.
+Print Assumptions C14_table_small_size_refused.
+(* ... and what replaces the table is the allocated block (of the announced size: the decoder only ever overwrites bytes of it), beginning with
+   the table's own version word, under the LZ4 scheme, from an announced size of at least four. *)
+Theorem C14_table_accepted_version : forall t heap out, table_decompress t heap = TOk out ->
+  be32l out 0 = be32l t 0 /\ scheme t = 1%N /\ 4 <= announced t /\ length out = length heap.
+Proof. exact table_ok_version. Qed.
+Print Assumptions C14_table_accepted_version.
+(* ... and it is the reference decoding of the block behind the header: a compressed table is transparent *)
+Theorem C14_table_transparent : forall t heap out, length heap = announced t -> (N.of_nat (length t) < U32 - 1)%N ->
+  table_decompress t heap = TOk out -> lz4_ref (skipn 8 t) = Some out.
+Proof. exact table_ok_is_reference. Qed.
+Print Assumptions C14_table_transparent.
+(* ... conversely a table whose block is a margin-respecting encoding of data that begins with the table's version word IS replaced by that data *)
+Theorem C14_table_transparent_complete : forall t heap data, 21 <= length t -> scheme t = 1%N -> announced t = length data ->
+  lz4_ref (skipn 8 t) = Some data -> margins (S (length (skipn 8 t))) (skipn 8 t) = true -> length (skipn 8 t) < length data ->
+  (N.of_nat (length data) < U32 - 8)%N -> be32l data 0 = be32l t 0 -> length heap = length data ->
+  table_decompress t heap = TOk data.
+Proof. exact table_transparent. Qed.
+Print Assumptions C14_table_transparent_complete.
+(* non-vacuity: a 24-byte table announcing 3 bytes is refused with an empty block; a valid one is replaced by its data *)
+Example C14_example_table :
+  table_open ([0;5;0;0; 8;0;0;3] ++ repeat 0 16)%N 0x50000 [] = TReject E_OUTOFMEM /\
+  (exists out, table_open [0;5;0;0; 8;0;0;44; 95; 0; 5; 0; 0; 7; 1; 0; 15; 80; 7; 7; 7; 7; 7]%N 0x50000 (repeat 0xCD%N 44) = TOk out /\ length out = 44 /\ nth 43 out 0%N = 7%N).
+Proof. split; [vm_compute; reflexivity|]. eexists. split; [vm_compute; reflexivity|]. split; reflexivity. Qed.
+(* non-vacuity of C14_decoder_sound: a block with a literal run and an overlapping match of 40 bytes is accepted, and is the reference decoding *)
+Example C14_example_sound :
+  let blk := [95; 0; 5; 0; 0; 7; 1; 0; 15; 80; 7; 7; 7; 7; 7]%N in
+  (exists out, decompress blk 44 (repeat 0xCD%N 44) = Ok 44 out /\ lz4_ref blk = Some out) /\ lz4_ref blk = Some ([0; 5; 0; 0] ++ repeat 7 40)%N /\
+  margins (S (length blk)) blk = true.
+Proof. split; [eexists; split; vm_compute; reflexivity | split; vm_compute; reflexivity]. Qed.
